@@ -83,6 +83,8 @@ def restart_grid(tier):
     for b in base:
         yield dict(b, user_entries=())
     yield dict(base[1], user_entries=("note", "cnt", "flt"))
+    yield {"reduce_lr_patience": 1, "reduce_lr_threshold": 1.0, "reduce_lr_factor": 0.7, "log10_learning_rate": -1.0,
+           "user_entries": ()}  # 0.1 * 0.7^k does not round-trip through the csv's 5 digits
     yield dict(base[2], user_entries=("cnt",), keep_last_and_best_only=False)
     if tier == "thorough":
         for pat, cool, fac in itertools.product((1, 2, 3), (0, 1, 2), (0.5, 0.25)):
@@ -151,9 +153,9 @@ def run_history(ctx, cfg, metrics, restarts, with_state, root_name="c15"):
         bad = None
         if bool(cont) != rcont:
             bad = ("wrong-stop-decision", {"expected": rcont, "observed": bool(cont)})
-        elif abs(info["lr"] - rlr) > 1e-9 * rlr:
+        elif abs(info["lr"] - rlr) > (5e-5 if restarts else 1e-9) * rlr:
             bad = ("wrong-learning-rate-in-history", {"expected": rlr, "observed": info["lr"]})
-        elif any(abs(x - rlr) > 1e-9 * rlr for x in olr):
+        elif any(abs(x - rlr) > (5e-5 if restarts else 1e-9) * rlr for x in olr):
             bad = ("optimizer-rate-not-updated", {"expected": rlr, "observed": olr})
         elif info["val_met"] != v or info["train_met"] != train_metric(v, e) or info["epoch"] != e:
             bad = ("wrong-recorded-metrics", {"info": info})
@@ -221,9 +223,11 @@ def _restart_case(ctx, cfg, metrics):
     if base is None:
         return
     E = len(base["decisions"])
-    if any(float("%.4e" % x) != x for x in base["lrs"]):
-        ctx.count("restart_histories_skipped_rate_not_representable")
-        return
+    inexact = any(float("%.4e" % x) != x for x in base["lrs"])
+    if inexact:
+        # a restart legitimately re-reads a rate rounded to the csv's 5 digits: rates are then compared at that
+        # precision (not skipped - a stale optimizer rate after a restart differs by far more)
+        ctx.count("restart_histories_with_rate_rounded_by_csv")
     pts = list(range(1, E))  # a restart after epoch k needs k >= 1 and training still going
     for r in range(1, len(pts) + 1):
         for sub in itertools.combinations(pts, r):
@@ -238,7 +242,8 @@ def _restart_case(ctx, cfg, metrics):
                              ("csv", "history-differs-after-restart")):
                 a, b = res[key], base[key]
                 if key == "lrs":
-                    same = len(a) == len(b) and all(abs(x - y) <= 1e-9 * abs(y) for x, y in zip(a, b))
+                    tol = 5e-5 if inexact else 1e-9
+                    same = len(a) == len(b) and all(abs(x - y) <= tol * abs(y) for x, y in zip(a, b))
                 else:
                     same = a == b
                 if not same:
